@@ -144,12 +144,15 @@ RejectedUpFront(c) ==
         \/ (Val(c, s, "ftype") = "s:maf" /\ Val(c, s, "linear_transform") # "none")      \* MAF takes no linear transform
         \/ (Val(c, s, "flow_proposal_class") = "s:augmentedflowproposal"               \* the augment mask needs RealNVP
               /\ Val(c, s, "ftype") \in {"s:maf", "s:nsf"})
+        \/ Val(c, s, "posterior_sampling_method") = "s:bogus"         \* FlowSampler.run_standard_sampler
     ELSE
         \/ Val(c, s, "stopping_criterion") = "s:bogus"                 \* configure_stopping_criterion
         \/ Val(c, s, "check_criteria") = "s:bogus"
         \/ Val(c, s, "min_samples") = "n:1000"                         \* check_configuration (> nlive)
         \/ Val(c, s, "min_remove") = "n:1000"
-        \/ Val(c, s, "reparameterisation") = "s:bogus"
+        \/ Val(c, s, "reparameterisation") = "s:bogus"               \* ImportanceFlowProposal.__init__
+        \/ Val(c, s, "threshold_method") = "s:bogus"                 \* ImportanceNestedSampler.__init__
+        \/ Val(c, s, "posterior_sampling_method") = "s:bogus"        \* FlowSampler.run_importance_nested_sampler
 
 Export ==
     PrintT("CFG " \o ToJson([sampler |-> Sampler(cfg),
